@@ -782,7 +782,7 @@ def families():
                             funcs=["DNSSector::parse", "DNSSector::parse_rr", "DNSSector::parse_opt", "Compress::check_compressed_name", "DNSSector::check_uncompressed_name"],
                             unwind=len(pk.cells) + 12, fs=max(300, len(pk.cells) + 40)))
 
-    quick_walk = {'q_opt2', 'q_hdrptr', 'r_cname_chain', 'r_ns_add_optlast', 'r_optfirst', 'r_optmid', 'r_mx_soa', 'r_dname_txt_priv', 'r_ptr_ptr'}
+    quick_walk = {'r_far_ptr', 'q_opt2', 'q_hdrptr', 'r_cname_chain', 'r_ns_add_optlast', 'r_optfirst', 'r_optmid', 'r_mx_soa', 'r_dname_txt_priv', 'r_ptr_ptr'}
     for p in SK:
         if not p.accept or 'edge' in p.tags:
             continue
